@@ -219,6 +219,9 @@ func init() {
 	add(t("WITHIN.get", "WITHIN", FRead, w("WITHIN"), k("fleet"), w("IDS"), w("GET"), k("fleet"), id("area1")))
 	add(t("WITHIN.point", "WITHIN", FRead, w("WITHIN"), k("fleet"), w("IDS"), w("POINT"), n("33.5"), n("-112.2")))
 	add(t("WITHIN.buffer", "WITHIN", FRead, w("WITHIN"), k("fleet"), w("BUFFER"), n("1000"), w("IDS"), w("BOUNDS"), n("33.4"), n("-112.3"), n("33.6"), n("-112.1")))
+	add(t("NEARBY.buffer", "NEARBY", FRead, w("NEARBY"), k("fleet"), w("BUFFER"), n("100"), w("IDS"), w("POINT"), n("33.5"), n("-112.2"), n("5000")))
+	add(t("INTERSECTS.buffer", "INTERSECTS", FRead, w("INTERSECTS"), k("fleet"), w("BUFFER"), n("100"), w("IDS"), w("POINT"), n("33.5"), n("-112.2")))
+	add(t("TEST.lines", "TEST", FRead, w("TEST"), w("OBJECT"), js(`{"type":"LineString","coordinates":[[0,0],[1,0],[1,1]]}`), w("WITHIN"), w("OBJECT"), js(`{"type":"LineString","coordinates":[[0,0],[1,0],[2,0]]}`)))
 	add(t("WITHIN.fence", "WITHIN", FRead|FLive, w("WITHIN"), k("fleet"), w("FENCE"), w("DETECT"), v("enter,exit,cross,inside,outside"), w("BOUNDS"), n("33"), n("-113"), n("34"), n("-112")))
 	add(t("INTERSECTS.bounds", "INTERSECTS", FRead, w("INTERSECTS"), k("fleet"), w("BOUNDS"), n("33"), n("-113"), n("34"), n("-112")))
 	add(t("INTERSECTS.clip", "INTERSECTS", FRead, w("INTERSECTS"), k("fleet"), w("CLIP"), w("OBJECTS"), w("BOUNDS"), n("33.2"), n("-112.25"), n("33.5"), n("-112.15")))
@@ -784,4 +787,34 @@ func SplitCommands(raw []byte) [][]string {
 		}
 	}
 	return out
+}
+
+// LineWithinLine reports the known geometry-library hang: a WITHIN-type test
+// (TEST ... WITHIN ..., or a WITHIN search) in which the tested object and the
+// area are LineString/MultiLineString geometries (for a search the stored
+// objects are the tested side, so a line area literal is enough to match).
+func LineWithinLine(args []string) bool {
+	if len(args) > 2 && strings.EqualFold(args[0], "TIMEOUT") {
+		args = args[2:]
+	}
+	if len(args) == 0 {
+		return false
+	}
+	n := 0
+	within := false
+	for _, a := range args[1:] {
+		if strings.Contains(a, "LineString") {
+			n++
+		}
+		if strings.EqualFold(a, "WITHIN") {
+			within = true
+		}
+	}
+	switch strings.ToUpper(args[0]) {
+	case "TEST":
+		return within && n >= 2
+	case "WITHIN":
+		return n >= 1
+	}
+	return false
 }
